@@ -4,7 +4,7 @@ From Coq Require Import List NArith ZArith Bool String.
 Import ListNotations.
 From JR Require Import Json Handle Handle_Proofs Frame Frame_Proofs.
 From JRGen Require Extracted.
-From JR Require Skeletons.
+From JR Require Skeletons ReadPipe ReadPipe_Proofs.
 
 (* the guards the crash-freedom proof relies on are in /repo's source right now: every params[i] of the three
    built-in methods is preceded by a length check that returns, and the cancel id goes through normalizeID
@@ -77,6 +77,22 @@ Theorem c10_refuted_without_guards :
   exec_frame no_guards t (bs "{""method"":""xrpc.ch.val"",""params"":[5]}") = ECrash.
 Proof. exact refuted_without_guards. Qed.
 
+(* ---- the read side as a token-passing pipeline (ReadPipe.v): nextMessage -> c.incoming -> loop -> readFrame ->
+   frameExecQueue -> executor. For EVERY trace of the pipeline (any frames, any failures, any number of reconnects) the
+   token is never dropped: a reader is armed, or a frame is on its way to the queue, or the failure is on its way to the
+   loop — no input leaves the connection deaf. Tied to the source by c10_code_skeletons (readFrame, nextMessage) and by
+   the replay of the reader events of every connection-scenario trace. *)
+Theorem c10_reader_never_unarmed : forall es s,
+  ReadPipe.rrun false ReadPipe.rp0 es = Some s -> ReadPipe.tk s <> ReadPipe.TNone.
+Proof. exact ReadPipe_Proofs.reader_never_unarmed. Qed.
+
+(* the variant that returns on a blank frame before enqueueing it and before re-arming the reader (seeded change C10-d): one
+   blank frame, and nothing but emptying the queue is enabled any more *)
+Theorem c10_refuted_drop_without_rearm :
+  exists es s, ReadPipe.rrun true ReadPipe.rp0 es = Some s /\ ReadPipe.tk s = ReadPipe.TNone /\
+    forall e, e <> ReadPipe.XTake -> ReadPipe.rstep true s e = None.
+Proof. exact ReadPipe_Proofs.refuted_drop_blank. Qed.
+
 (* the functions this property's model is an abstraction of still have the control / locking / shared-state skeleton the
    model was written against (Skeletons.v, by hand; Extracted.v, regenerated from /repo) *)
 Theorem c10_code_skeletons :
@@ -87,6 +103,8 @@ Theorem c10_code_skeletons :
 Proof. repeat split; reflexivity. Qed.
 
 Print Assumptions c10_code_skeletons.
+Print Assumptions c10_reader_never_unarmed.
+Print Assumptions c10_refuted_drop_without_rearm.
 Print Assumptions c10_source_guards.
 Print Assumptions c10_no_crash.
 Print Assumptions c10_no_crash_sequence.
